@@ -77,8 +77,8 @@ def cases(tier, seed):
             out.append(('straddle_%s_%s' % (ex, pl), dict(kind='straddle', extra=ex, place=pl)))
     # the problem of an asset with a window inside a longer horizon is the problem of the same asset on a horizon equal to the window
     # (nothing outside the window matters; steps counted from the horizon start) -- discount rate 0
-    for ex in EXTRAS + ['storage_blocks']:
-        for w in (((2, 5),) if tier != 'thorough' and ex != 'storage_blocks' else ((2, 5), (1, 3), (3, 4)) if ex != 'storage_blocks' else ((1, 5), (2, 5))):
+    for ex in EXTRAS + ['storage_blocks', 'minload_plant']:
+        for w in (((2, 5),) if tier != 'thorough' and ex != 'storage_blocks' else ((2, 5), (1, 3), (3, 4)) if ex not in ('storage_blocks', 'minload_plant') else ((1, 5), (2, 5))):
             out.append(('horizon_is_window_%s_%d_%d' % (ex, w[0], w[1]), dict(kind='straddle', extra=ex, place='horizon_is_window', win=list(w))))
     out.append(('takeperiod_outside', dict(kind='extra', extra='takeperiod', place='after')))
     # a coarse interval straddling the horizon counts with its covered part only (decided with the C13 machinery: option problem vs
@@ -105,6 +105,12 @@ def mk_extra(D, kind, T, tg, nA, nB, win):
                                    min_take=shapes.mk_take(tg, win[0], win[1], D('ex_mintake', hi=0)))
     if kind == 'storage':
         return shapes.mk_storage(D, 'ex', nA, eff=0.75, win=win, tg=tg)
+    if kind == 'minload_plant':
+        mn = D('ex_min', lo_strict=0); mx = D('ex_max', lo=0)
+        D.assume(mn <= mx)
+        thr = {'start': [shapes.tstep(tg, k) for k in range(tg.T)], 'values': [D('ex_thr%d' % k, lo=0) for k in range(tg.T)]} if win[0] >= 0 and win[1] <= tg.T else D('ex_thr', lo=0)
+        return eao.assets.CHPAsset_with_min_load_costs(name='ex', nodes=[nA], price='p', min_cap=mn, max_cap=mx, start_costs=D('ex_sc', lo=0),
+                                                       min_load_threshhold=D('ex_thr', lo=0), min_load_costs=D('ex_mlc', lo=0), _no_heat=True, start=s, end=e)
     if kind == 'storage_blocks':
         return shapes.mk_storage(D, 'ex', nA, eff=None, costs=False, win=win, tg=tg, block_size='2h')
     if kind == 'transport':
